@@ -166,6 +166,15 @@ func didRules(p *Prog, r *Report, clause string, want func(string) bool) *didMod
 	}
 	// ---- store accounting -----------------------------------------------------------------------
 	if want("store") {
+		perFn := map[*ssa.Function]int{}
+		for _, so := range m.ops {
+			perFn[so.Fn]++
+		}
+		for _, so := range m.ops {
+			if so.Op == "Set" || so.Op == "Get" {
+				checkAccessorShape(p, r, kp("SHAPE", FuncName(so.Fn)+"#"+so.Op), "unconditional single operation on the marshalled parameter / unmarshalled store value", so, perFn[so.Fn])
+			}
+		}
 		r.Floor("did-setters", len(m.setters), 1)
 		r.Floor("did-getters", len(m.getters), 1)
 		for _, so := range m.other {
